@@ -92,6 +92,7 @@ class Part:
     uses_normal: bool
     nderiv: int
     mode: str            # "custom" | "vertex" | "exact"
+    has_cond: bool = False
     entity_cell: str = ""
 
 
@@ -206,6 +207,7 @@ def programs_of_form(form, form_index, scalar, exact_ok=True, diagonal=False, la
             deg = int(np.max(deg))
             parts.append(Part(tree, tf.aleaves, tf.cleaves, pts, wts, tf.uses_normal, tf.max_deriv, mode))
             parts[-1].degree = deg
+            parts[-1].has_cond = tf.has_cond
         progs.append(Program(form_index, idata.integral_type, sid, cell, tdim, gdim, len(arguments), scalar,
                              spaces, args, cnames, [spaces[n].dim for n in cnames],
                              [int(np.prod(c.ufl_shape, dtype=int)) for c in consts], coord, parts,
@@ -268,7 +270,7 @@ class Oracle:
             parts.append({"tree": part.tree, "aleaves": part.aleaves, "cleaves": part.cleaves,
                           "pts": [[fr(c) for c in p] for p in pts], "wts": [fr(w) for w in wts],
                           "xq": [[[fr(c) for c in p] for p in xs] for xs in xq], "tabs": tabs,
-                          "uses_normal": part.uses_normal})
+                          "uses_normal": part.uses_normal, "has_cond": part.has_cond})
         self.confs.append({"prog": pidx, "ent": list(ent), "perm": list(perm), "parts": parts})
         self._conf_key[key] = len(self.confs)
         return len(self.confs)
@@ -307,35 +309,45 @@ class Oracle:
         return results
 
     def _run(self, progs_json, confs, cases, ids, depth=0):
-        d = tlc.stage("fem", ["Rational", "RefCell", "Fem"])
-        f = d / "fem.json"
-        f.write_text(json.dumps({"progs": progs_json, "confs": confs, "cases": cases}))
-        r = tlc.run(d, "Fem", cfg_text="SPECIFICATION Spec\n", workers=2, env={"FEM_FILE": str(f)},
-                    timeout=3000, heap="3g")
+        """Evaluate `cases`; a 32-bit overflow aborts a TLC run, naming the case: it is marked and the rest re-run."""
+        import re as _re
+
         out = [None] * len(cases)
-        for s in r.printed:
-            if s.replace(" ", "").startswith('<<"T"'):
-                v = tlc.parse_tla(s)
-                out[v[1] - 1] = _decode(v[2])
-        missing = [i for i, o in enumerate(out) if o is None]
-        if missing:
-            if "verflow" in r.out and depth < 40:
-                # a 32-bit overflow aborts the TLC run: evaluate the cases one by one around it
-                if len(cases) == 1:
-                    return [("overflow",)], (r.distinct, r.generated)
-                half = len(cases) // 2
-                a, sa = self._run(progs_json, confs, cases[:half], ids[:half], depth + 1)
-                b, sb = self._run(progs_json, confs, cases[half:], ids[half:], depth + 1)
-                return a + b, (sa[0] + sb[0], sa[1] + sb[1])
+        todo = list(range(len(cases)))
+        st = [0, 0]
+        for _round in range(len(cases) + 1):
+            if not todo:
+                break
+            d = tlc.stage("fem", ["Rational", "RefCell", "Fem"])
+            f = d / "fem.json"
+            f.write_text(json.dumps({"progs": progs_json, "confs": confs, "cases": [cases[i] for i in todo]}))
+            r = tlc.run(d, "Fem", cfg_text="SPECIFICATION Spec\n", workers=2, env={"FEM_FILE": str(f)},
+                        timeout=3000, heap="3g")
+            st[0] += r.distinct
+            st[1] += r.generated
+            for s in r.printed:
+                if s.replace(" ", "").startswith('<<"T"'):
+                    v = tlc.parse_tla(s)
+                    out[todo[v[1] - 1]] = _decode(v[2])
+            left = [i for i in todo if out[i] is None]
+            if not left:
+                break
+            m = _re.search(r"Error: Overflow when computing.*?cid = (\d+)", r.out, _re.S)
+            if m:
+                bad = todo[int(m.group(1)) - 1]
+                out[bad] = ("overflow",)
+                todo = [i for i in left if i != bad]
+                continue
             tail = "\n".join(r.out.splitlines()[-30:])
             raise MachineryError(f"Fem.tla evaluation failed:\n{tail}")
-        return out, (r.distinct, r.generated)
+        return out, tuple(st)
 
 
 def _decode(v):
     if v[0] != "ok":
         return (v[0],)
     t = v[1]
+    amp = Fr(v[2][0], v[2][1])
     rows = []
     for i in sorted(t):
         row = []
@@ -343,7 +355,7 @@ def _decode(v):
             (re, im), mag = t[i][j]
             row.append((Fr(re[0], re[1]), Fr(im[0], im[1]), Fr(mag[0], mag[1])))
         rows.append(row)
-    return ("ok", rows)
+    return ("ok", rows, amp)
 
 
 # ---------------------------------------------------------------------------
@@ -415,11 +427,11 @@ def tensor_shape(prog: Program):
     return dims
 
 
-def tolerance(mag: Fr, scalar: str, nops: int):
-    return float(mag) * EPS[scalar] * (8 * nops + 64) + 1e-300
+def tolerance(mag: Fr, scalar: str, nops: int, amp: float = 1.0):
+    return float(mag) * EPS[scalar] * (8 * nops + 64) * amp + 1e-300
 
 
-def compare(A, expected, scalar, nops):
+def compare(A, expected, scalar, nops, amp=1.0):
     """-> list of (i, j, got, want, tol) that disagree."""
     bad = []
     n0 = len(expected)
@@ -430,7 +442,7 @@ def compare(A, expected, scalar, nops):
             re, im, mag = expected[i][j]
             want = complex(float(re), float(im))
             got = complex(A2[i, j])
-            tol = tolerance(mag, scalar, nops)
+            tol = tolerance(mag, scalar, nops, amp)
             if not (abs(got.real - want.real) <= tol and abs(got.imag - want.imag) <= tol) or math.isnan(got.real):
                 bad.append((i, j, got, want, tol))
     return bad
@@ -455,7 +467,7 @@ def coord_nodes(prog: Program):
     return [[frac(c, "coordinate node") for c in p] for p in pts]
 
 
-def affine_geometry(prog: Program, rnd: random.Random, span=3, tries=200, M=None, b=None):
+def affine_geometry(prog: Program, rnd: random.Random, span=2, tries=200, M=None, b=None):
     """Integer node coordinates x = s (M X + b) of a non-degenerate affine cell (random orientation)."""
     X = coord_nodes(prog)
     den = 1
@@ -467,7 +479,8 @@ def affine_geometry(prog: Program, rnd: random.Random, span=3, tries=200, M=None
         Mm = M if M is not None else [[rnd.randint(-span, span) for _ in range(td)] for _ in range(gd)]
         bb = b if b is not None else [rnd.randint(-2, 2) for _ in range(gd)]
         if td == gd:
-            if round(np.linalg.det(np.array(Mm, dtype=float))) == 0:
+            dt = abs(round(np.linalg.det(np.array(Mm, dtype=float))))
+            if dt == 0 or (M is None and dt > (4 if td == 3 else 6)):     # keeps K's denominators small
                 continue
         else:
             g = np.array(Mm, dtype=float)
@@ -504,7 +517,7 @@ def make_geometry(prog: Program, kind: str, rnd: random.Random, facet=None):
     if kind == "nonaffine":
         geom, topo = ref_geometry(prog.cell)
         nv = len(topo[0])
-        nodes = [[4 * c for c in n] for n in nodes]
+        nodes = [[3 * c for c in n] for n in nodes]
         cand = list(range(nv, len(nodes))) if len(nodes) > nv else list(range(nv))
         for n in rnd.sample(cand, max(1, len(cand) // 2)):
             nodes[n] = [c + rnd.choice([-1, 1]) for c in nodes[n]]
@@ -565,11 +578,26 @@ def enumerate_formspace(chk=None):
     return _FS_CACHE
 
 
-def sample_cases(cases, n, seed, must=lambda c: True):
-    """Seeded covering sample: first cover every (attribute, value) and (elem, term) pair, then fill up."""
+_NDOF = {"P1": 1, "P2": 3, "P3": 6, "DG0": 0.4, "DG1": 1, "vP1": 2.5, "vP2": 7, "symP1": 3, "TH": 8, "RT1": 1, "N1": 1.5,
+         "BDM1": 2, "RTxDG0": 1.5, "bubble": 1.5, "real": 0.3, "quad": 1}
+_CELLW = {"interval": 0.3, "triangle": 1, "quadrilateral": 2, "tetrahedron": 3, "hexahedron": 10}
+
+
+def case_cost(c):
+    """Rough relative cost of evaluating the case in TLC (dofs^2 x points)."""
+    r = {"exact": 2.0, "custom": 1.0, "vertex": 1.0}[c["rule"]]
+    rank2 = 0.3 if c["term"] in ("load", "gradload", "energy", "xint") else 1.0
+    return (_NDOF[c["elem"]] ** 2) * _CELLW[c["cell"]] * r * rank2
+
+
+def sample_cases(cases, n, seed, must=lambda c: True, max_cost=None):
+    """Seeded covering sample: first cover every (attribute, value) and (elem, term) pair, then fill up.
+    With max_cost, expensive cases are only taken while they add coverage."""
     rnd = random.Random(seed)
     pool = [c for c in cases if must(c)]
     rnd.shuffle(pool)
+    if max_cost is not None:
+        pool.sort(key=lambda c: case_cost(c) > max_cost)        # stable: cheap ones first, order otherwise random
     seen, chosen, rest = set(), [], []
     for c in pool:
         feats = {(k, v) for k, v in c.items()} | {("et", c["elem"], c["term"]), ("cg", c["cell"], c["geom"]),
@@ -600,8 +628,12 @@ def run_items(chk, items, nworkers=4, module_size=8):
     buckets = [list(range(i, len(items), nworkers)) for i in range(nworkers)]
     tag = f"{random.Random(len(items)).randrange(10**6)}-{id(items) % 10**6}"
 
+    import time as _t
+    tw = [0.0, 0.0]
+
     def one(b):
         ids = buckets[b]
+        t0 = _t.time()
         jf, ff, mf = d / f"job-{tag}-{b}.json", d / f"fem-{tag}-{b}.json", d / f"meas-{tag}-{b}.json"
         jf.write_text(json.dumps({"items": [items[i] for i in ids], "module_size": module_size}))
         p = subprocess.run([PY, "-m", "harness.s5w", str(jf), str(ff), str(mf)], env=child_env(),
@@ -610,6 +642,8 @@ def run_items(chk, items, nworkers=4, module_size=8):
             raise MachineryError(f"S5 worker failed:\n{p.stderr[-3000:]}")
         fem = json.loads(ff.read_text())
         mm = json.loads(mf.read_text())
+        tw[0] += _t.time() - t0
+        t0 = _t.time()
         # evaluate this worker's cases with TLC
         orc = Oracle()
         orc.confs, orc.cases = fem["confs"], fem["cases"]
@@ -629,6 +663,7 @@ def run_items(chk, items, nworkers=4, module_size=8):
                 res, stats = orc._run(fem["progs"], confs, cases, ids2)
                 exp += res
                 chk.add(states=stats[0], transitions=stats[1])
+        tw[1] += _t.time() - t0
         return ids, mm, exp, fem
 
     out = []
@@ -643,10 +678,12 @@ def run_items(chk, items, nworkers=4, module_size=8):
                 rec = {"item": ids[m["item"]], "meas": m, "status": e[0], "case_data": fem["cases"][m["case"] - 1]}
                 if e[0] == "ok":
                     A = np.array([complex(a, b) for a, b in m["A"]])
-                    rec["bad"] = compare(A, e[1], m["scalar"], m["nops"])
+                    rec["bad"] = compare(A, e[1], m["scalar"], m["nops"], float(e[2]))
+                    rec["amp"] = float(e[2])
                     rec["nonzero"] = any(x[0] != 0 or x[1] != 0 for row in e[1] for x in row)
                     rec["expected"] = e[1]
                 out.append(rec)
+    chk.note(f"S5 batch of {len(items)} items: worker (realise+compile+run) {tw[0]:.0f}s, TLC {tw[1]:.0f}s (summed over {nworkers} lanes)")
     return out
 
 
@@ -691,3 +728,12 @@ def report(chk, items, recs, pid_filter=None):
     chk.add(evaluations=evals, traces_validated_against_impl=evals, skipped_out_of_model=skipped,
             skipped_irrational_or_overflow=oor, samples=samples)
     return nz
+
+
+def replay(chk, path):
+    """Re-run the item of a recorded violation (same abstract case, same seed, same options)."""
+    doc = json.loads(open(path).read())
+    it = doc["payload"]["item"]
+    recs = run_items(chk, [it], nworkers=1)
+    nz = report(chk, [it], recs)
+    chk.add(distinct_nontrivial=len(nz), rule="replay of one recorded case")
